@@ -19,7 +19,8 @@ by exact half-even rounding — so the Go formatting is re-derived, not copied);
 the 12-decimal rounding of the exact value and the lines differ. tol = 1e-12 (absolute).
 On the normal-approximation branch Φ is evaluated here in 60-digit fixed point from the model's
 exact (U, μ, σ², continuity correction); where Go evaluates the lower tail directly the
-tolerance is additionally relative (1e-9·p).
+tolerance is additionally relative (1e-9·p). Beyond |z| = 13 the reference is the limit value
+(0 or 1), compared absolutely.
 -/
 
 namespace Driver.C11
@@ -143,9 +144,14 @@ def toRat (x : Int) : Rat := (x : Rat) / ((S.toNat : Nat) : Rat)
 
 /-- p-value of the normal branch for z (fixed point) and the tolerance to use -/
 def normalP (alt : UStat.Alt) (z : Int) : Rat × Rat :=
-  let lower := toRat (phiFixed z)         -- Φ(z)
-  let upper := toRat (phiFixed (-z))      -- 1 − Φ(z)
+  -- beyond |z| = 13 the fixed-point series is not trustworthy (bounded loops, e^(−z²/2) below the
+  -- resolution): the reference is the limit value (Φ = 0 or 1, both within 1e-38 of the truth),
+  -- compared absolutely at the approximate branch's tolerance
+  let far := decide (z > 13 * S) || decide (z < -(13 * S))
+  let lower : Rat := if far then (if z > 0 then 1 else 0) else toRat (phiFixed z)         -- Φ(z)
+  let upper : Rat := if far then (if z > 0 then 0 else 1) else toRat (phiFixed (-z))      -- 1 − Φ(z)
   let rel (p : Rat) : Rat :=
+    if far then tolAbs else
     let t := p / ((10 ^ 9 : Nat) : Rat)
     if t < tolAbs then (if t < (1 : Rat) / ((10 ^ 300 : Nat) : Rat) then (1 : Rat) / ((10 ^ 300 : Nat) : Rat) else t) else tolAbs
   match alt with
